@@ -6,7 +6,8 @@ import ast
 from ..cfg import CFG
 from ..loops import dotted
 from ..nf import NF, Scope, Poly, parse_expr
-from ..repo import Repo, loc, short, AnalysisError, positional_params, param_names
+from ..repo import Repo, loc, short, AnalysisError, positional_params, param_names, bind_call
+from ..sem import guard_literals, spec, stmt_calls, on_every_path_once
 
 EXPLANATION = (
     "Window validity is modular index arithmetic over arbitrary add-histories; no sound static argument in reach bounds it, so the "
@@ -257,28 +258,50 @@ def run(ck, repo: Repo, tier: str):
     ck.ob("R2-enable-offset-agreement", site, "single-enable", True, f"{[short(n.ast) for n in enables]}", "", loc(mi, fn))
     for n in enables:
         idx = idx_of(n)
-        g = [(t, v) for b, lab in cfg.control_deps(n.id) for t, v in cfg._lits(cfg.nodes[b].ast.test, lab, b) if t not in ("True",)]
+        g = guard_literals(nf, cfg, mi, n.id)
         want_idx = nf.poly(parse_expr("(self.insert_idx - self.horizon) % self.buffer_size"), sc, None).canon()
-        ok = idx == want_idx and g == [("self.episode_timesteps > self.horizon", True)] and cfg.paths_avoiding(a_main.id, n.id, set()) is None
+        want_g = spec(nf, mi, "self.episode_timesteps > self.horizon")
+        rel = [x for x in g if "episode_timesteps" in x]
+        other = [x for x in g if "episode_timesteps" not in x]
+        if other:
+            raise AnalysisError(f"{site}: the enabling store is additionally guarded by {other} (unrecognised idiom)")
+        before_adv = cfg.paths_avoiding(a_main.id, n.id, set()) is None
+        ok = idx == want_idx and rel == [want_g] and before_adv
         why = ""
         if not ok:
             why = f"the start index enabled is `{idx}` under {g}: offset and threshold must both be self.horizon with a strict `>` (a window may only start `horizon` steps behind the write position once the episode is longer than the horizon)"
-        ck.ob("R2-enable-offset-agreement", site, "offset-equals-threshold", ok, f"`{short(n.ast)}` if {[t for t, v in g]}", why, loc(mi, n.ast))
+        ck.ob("R2-enable-offset-agreement", site, "offset-equals-threshold", ok, f"`{short(n.ast)}` if {g}", why, loc(mi, n.ast))
     # episode counter
-    incs = [n for n in cfg.nodes if n.kind == "stmt" and isinstance(n.ast, ast.AugAssign) and dotted(n.ast.target) == "self.episode_timesteps"]
-    ok = len(incs) == 1 and ast.unparse(incs[0].ast) == "self.episode_timesteps += 1" and not cfg.control_deps(incs[0].id) and all(cfg.dominates(incs[0].id, n.id) for n in enables)
-    ck.ob("R2-enable-offset-agreement", site, "episode-counter", ok, f"{[ast.unparse(n.ast) for n in incs]}", "" if ok else "episode_timesteps must count this step before the guard is evaluated", loc(mi, fn))
+    ET = "self.episode_timesteps"
+    writes_et = [n for n in cfg.nodes if n.kind == "stmt" and isinstance(n.ast, (ast.Assign, ast.AugAssign)) and dotted(n.ast.targets[0] if isinstance(n.ast, ast.Assign) else n.ast.target) == ET]
+
+    def new_value(n):
+        if isinstance(n.ast, ast.Assign):
+            return nf.poly(n.ast.value, sc, None).canon()
+        return nf._binop_polys(Poly.atom(ET, {ET}, {ET}), nf.poly(n.ast.value, sc, None), n.ast.op).canon()
+    incs = [n for n in writes_et if new_value(n) == f"1 + {ET}"]
+    resets = [n for n in writes_et if new_value(n) == "0"]
+    odd = [n for n in writes_et if n not in incs and n not in resets]
+    ok = len(incs) == 1 and not odd and not cfg.control_deps(incs[0].id) and all(cfg.dominates(incs[0].id, n.id) for n in enables)
+    ck.ob("R2-enable-offset-agreement", site, "episode-counter", ok, f"{[short(n.ast) for n in writes_et]}", "" if ok else "episode_timesteps must count this step (exactly +1, unconditionally) before the guard is evaluated", loc(mi, fn))
     # R3 tail
     tails = [n for n in masks if n not in enables and n not in clears_main and n not in clears_tail]
     ck.need(len(tails) == 1, f"{site}: {len(tails)} tail stores in add_sample (unrecognised idiom: the mask protocol was restructured)")
     ck.ob("R3-tail", site, "single-tail-store", True, f"{[short(n.ast, 70) for n in tails]}", "", loc(mi, fn))
     if len(tails) == 1:
         t = tails[0]
-        g = [(x, v) for b, lab in cfg.control_deps(t.id) for x, v in cfg._lits(cfg.nodes[b].ast.test, lab, b)]
-        okg = g == [("sample['terminated'] or sample['truncated']", True)]
-        ck.ob("R3-tail", site, "episode-end-branch", okg, f"under {[x for x, v in g]}", "" if okg else "the tail is (de)activated exactly when the episode ended", loc(mi, t.ast))
+        g = guard_literals(nf, cfg, mi, t.id)
+        want_end = {spec(nf, mi, "sample['terminated'] or sample['truncated']"), spec(nf, mi, "sample['truncated'] or sample['terminated']")}
+        okg = len(g) == 1 and g[0] in want_end
+        if not okg and not any("terminated" in x or "truncated" in x for x in g):
+            raise AnalysisError(f"{site}: the tail store is guarded by {g} (unrecognised idiom)")
+        ck.ob("R3-tail", site, "episode-end-branch", okg, f"under {g}", "" if okg else "the tail is (de)activated exactly when the episode ended (terminated or truncated)", loc(mi, t.ast))
         v = t.value()
-        okv = v == "0 if sample['truncated'] else 1"
+        vc = nf.poly(t.val, sc, None).canon()
+        good = {nf.poly(parse_expr(x), sc, None).canon() for x in ("0 if sample['truncated'] else 1", "1 - sample['truncated']", "not sample['truncated']", "int(not sample['truncated'])", "1 - int(sample['truncated'])")}
+        okv = v == "0 if sample['truncated'] else 1" or vc in good
+        if not okv and "truncated" in vc and "terminated" not in vc and vc not in ("sample['truncated']",) and not vc.startswith("ite("):
+            raise AnalysisError(f"{site}: tail value `{vc}` not recognised")
         ck.ob("R3-tail", site, "truncated-disables", okv, f"value = {v}", "" if okv else "truncated tails must be masked out (0), terminated tails enabled (1)", loc(mi, t.ast))
         # index expression via reaching definition
         idx = t.idx
@@ -289,14 +312,26 @@ def run(ck, repo: Repo, tier: str):
         want = nf.poly(parse_expr("(self.insert_idx - np.arange(min(self.episode_timesteps, self.horizon)) - 1) % self.buffer_size"), sc, None).canon()
         oki = iv == want and cfg.dominates(a_main.id, t.id)
         ck.ob("R3-tail", site, "last-min(len,horizon)-slots", oki, f"index = {iv}", "" if oki else f"must be the last min(episode_timesteps, horizon) written slots: {want} (evaluated after the first advance)", loc(mi, t.ast))
-    resets = [n for n in cfg.nodes if n.kind == "stmt" and isinstance(n.ast, ast.Assign) and dotted(n.ast.targets[0]) == "self.episode_timesteps"]
-    ok = len(resets) == 1 and ast.unparse(resets[0].ast.value) == "0" and bool(cfg.control_deps(resets[0].id)) and (not tails or cfg.dominates(tails[0].id, resets[0].id))
-    ck.ob("R3-tail", site, "episode-counter-reset", ok, f"{[ast.unparse(n.ast) for n in resets]}", "" if ok else "episode_timesteps must be reset at the episode end, after the tail was marked", loc(mi, fn))
-    txt = "\n".join(ast.unparse(s) for s in fn.body)
-    ok = "self.buffer['observation'][self.insert_idx] = sample['next_observation']" in txt and "self.buffer[k][self.insert_idx] = 0.0" in txt
-    ck.ob("R3-tail", site, "successor-row-content", ok, "observation <- next_observation, reward <- 0 in the extra row", "" if ok else "the extra row must hold the final successor observation", loc(mi, fn))
+    ok = len(resets) == 1 and bool(cfg.control_deps(resets[0].id)) and (not tails or cfg.dominates(tails[0].id, resets[0].id)) and set(guard_literals(nf, cfg, mi, resets[0].id)) == set(guard_literals(nf, cfg, mi, tails[0].id) if tails else [])
+    ck.ob("R3-tail", site, "episode-counter-reset", ok, f"{[short(n.ast) for n in resets]}", "" if ok else "episode_timesteps must be reset to 0 exactly at the episode end, after the tail was marked", loc(mi, fn))
+    # successor row: written at the (advanced) write position, observation <- next_observation
+    succ = []
+    for n in cfg.nodes:
+        s_ = n.ast
+        if n.kind == "stmt" and isinstance(s_, ast.Assign) and isinstance(s_.targets[0], ast.Subscript) and isinstance(s_.targets[0].value, ast.Subscript) and dotted(s_.targets[0].value.value) == "self.buffer" \
+                and cfg.paths_avoiding(a_main.id, n.id, set()) is not None and cfg.paths_avoiding(n.id, a_tail.id, set()) is not None and cfg.control_deps(n.id):
+            succ.append(n)
+    obs_rows = [n for n in succ if isinstance(n.ast.targets[0].value.slice, ast.Constant) and n.ast.targets[0].value.slice.value == "observation"]
+    if not obs_rows:
+        raise AnalysisError(f"{site}: the store of the successor row's observation was not found (unrecognised idiom)")
+    last = obs_rows[-1]
+    val = nf.poly(last.ast.value, sc, None).canon()
+    at_idx = all(nf.poly(n.ast.targets[0].slice, sc, None).canon() in ("self.insert_idx", "mod(self.insert_idx, self.buffer_size)") for n in succ)
+    ok = val == "sample['next_observation']" and at_idx and not any(cfg.paths_avoiding(last.id, m.id, set()) is not None and m is not last for m in obs_rows if m.id != last.id and False)
+    ck.ob("R3-tail", site, "successor-row-content", ok, f"`{short(last.ast, 70)}`; all successor-row stores at the advanced write position: {at_idx}",
+          "" if ok else "the extra row after an episode end must hold the final successor observation at the slot following the last transition (it is what next_observation of the last window reads)", loc(mi, last.ast))
     lens = [n for n in cfg.nodes if n.kind == "stmt" and isinstance(n.ast, ast.Assign) and dotted(n.ast.targets[0]) == "self.current_len"]
-    ok = len(lens) == 2 and all(ast.unparse(n.ast.value) == "min(self.current_len + 1, self.buffer_size)" for n in lens)
+    ok = len(lens) == 2 and all(nf.poly(n.ast.value, sc, None).canon() == "min(1 + self.current_len, self.buffer_size)" for n in lens)
     ck.ob("R1-mask-clear-on-write", site, "length-per-written-row", ok, f"{len(lens)} length updates", "" if ok else "each written row (incl. the successor row) increases the length, saturating at the capacity", loc(mi, fn))
 
     # ---- R4 ------------------------------------------------------------------------------------------------------
@@ -347,26 +382,67 @@ def run(ck, repo: Repo, tier: str):
         else:
             raise AnalysisError(f"{CQ}._sample_idx: returns `{got[:100]}` (unrecognised idiom)")
     f3 = _m(repo, RB + "SubtrajectoryReplayBufferPER", "_sample_idx")
-    rets = [n for n in ast.walk(f3) if isinstance(n, ast.Return)]
-    ok = len(rets) == 1 and ast.unparse(rets[0].value) == "self.priority.prioritized_sampling(self.current_len, batch_size, rng, self.mask_)"
-    ck.ob("R4-start-from-mask", RB + "SubtrajectoryReplayBufferPER._sample_idx", "mask-passed", ok, f"return {ast.unparse(rets[0].value) if rets else None}", "" if ok else "the prioritised sampler must receive mask_ so that disabled starts have zero probability", loc(mi, f3))
-    pb = _m(repo, RB + "PriorityBuffer", "prioritized_sampling")
-    txt = "\n".join(ast.unparse(s) for s in pb.body)
-    ok = "if mask is not None:\n    priority = priority * mask[:current_len]" in txt
-    ck.ob("R4-start-from-mask", RB + "PriorityBuffer.prioritized_sampling", "mask-multiplied", ok, "priority = priority * mask[:current_len]", "" if ok else "the mask must zero the priorities of disabled start indices before the cumulative sum", loc(mi, pb))
+    c3 = nf.cfg_of(f3)
+    pbm = repo.method(RB + "PriorityBuffer", "prioritized_sampling")
+    ck.need(pbm is not None, "PriorityBuffer.prioritized_sampling not found (anchor vanished)")
+    scalls = stmt_calls(c3, lambda c: isinstance(c.func, ast.Attribute) and c.func.attr == "prioritized_sampling")
+    ck.need(len(scalls) == 1, f"{RB}SubtrajectoryReplayBufferPER._sample_idx: expected one prioritized_sampling call (unrecognised idiom)")
+    n3, c3call = scalls[0]
+    b = bind_call(pbm[1], c3call, skip_self=True)
+    s3 = Scope(c3, mi, {}, "per")
+    mval = nf.poly(b["mask"], s3, n3.id).canon() if "mask" in b else None
+    lval = nf.poly(b["current_len"], s3, n3.id).canon() if "current_len" in b else None
+    ok = mval == "self.mask_" and lval == "self.current_len" and isinstance(n3.ast, ast.Return)
+    if ok is False and mval == "self.mask_" and lval == "self.current_len":
+        raise AnalysisError(f"{RB}SubtrajectoryReplayBufferPER._sample_idx: sampled indices are post-processed (unrecognised idiom)")
+    ck.ob("R4-start-from-mask", RB + "SubtrajectoryReplayBufferPER._sample_idx", "mask-passed", ok, f"prioritized_sampling(current_len <- {lval}, mask <- {mval})", "" if ok else "the prioritised sampler must receive mask_ (and current_len) so that disabled starts have zero probability", loc(mi, f3))
+    # the sampler multiplies the priorities by the mask on the mask-given path (path evaluation, not text)
+    from ..sympath import enumerate_paths, PathEval
+    pb = pbm[1]
+    pb._module = mi
+    cpb = nf.cfg_of(pb)
+    prets = [n for n in cpb.nodes if n.kind == "stmt" and isinstance(n.ast, ast.Return)]
+    ck.need(len(prets) == 1, "PriorityBuffer.prioritized_sampling: expected one return")
+    env = {p_: Poly.atom(p_, {p_}, {p_}) for p_ in positional_params(pb)}
+    masked_paths = unmasked = 0
+    for pth in enumerate_paths(cpb, cpb.entry, {prets[0].id}):
+        lits = []
+        for nid, lab in pth:
+            nd = cpb.nodes[nid]
+            if nd.kind == "test" and lab in (True, False):
+                lits += [(t_, v_ == True) for t_, v_ in cpb._lits(nd.ast.test, lab, nid)]
+        mask_given = ("mask is not None", True) in lits or ("mask is None", False) in lits
+        pe = PathEval(nf, cpb, mi, "ps", env).run(pth[:-1])
+        txt = pe.ev(prets[0].ast.value).canon()
+        for k, v in pe.store.items():
+            txt = txt.replace(k, v.canon())
+        if mask_given:
+            masked_paths += 1
+            if "mask[:current_len]*self.priority[:current_len]" not in txt and "self.priority[:current_len]*mask[:current_len]" not in txt:
+                unmasked += 1
+    if masked_paths == 0:
+        raise AnalysisError("PriorityBuffer.prioritized_sampling: no path on which a mask is given (unrecognised idiom)")
+    ck.ob("R4-start-from-mask", RB + "PriorityBuffer.prioritized_sampling", "mask-multiplied", unmasked == 0, f"{masked_paths} path(s) with a mask: sampled distribution uses priority[:len] * mask[:len]",
+          "" if unmasked == 0 else "on a path where a mask is given the sampled distribution does not multiply the priorities by it: disabled start indices keep a positive probability", loc(mi, pb))
 
     # ---- R5 / R6 ----------------------------------------------------------------------------------------------------
     f4 = _m(repo, CQ, "sample_batch")
     c4 = nf.cfg_of(f4)
     s4 = Scope(c4, mi, {p: Poly.atom(p, {p}, {p}) for p in positional_params(f4)}, CQ + ".sample_batch")
-    ifn = [n for n in c4.nodes if n.kind == "test" and ast.unparse(n.ast.test) == "include_intermediate"]
+    ifn = [n for n in c4.nodes if n.kind == "test" and isinstance(n.ast, ast.If) and ast.unparse(n.ast.test) in ("include_intermediate", "not include_intermediate")]
+    if len(ifn) == 1 and ast.unparse(ifn[0].ast.test).startswith("not "):
+        # swapped arms: normalise to (with-intermediate, without-intermediate)
+        import copy as _copy
+        sw = _copy.copy(ifn[0].ast)
+        sw.body, sw.orelse = ifn[0].ast.orelse, ifn[0].ast.body
+        ifn[0].ast_swapped = sw
     ck.need(len(ifn) == 1, f"{CQ}.sample_batch: include_intermediate branch not found")
     iv = nf.name("indices", s4, ifn[0].id).canon()
     want = nf.poly(parse_expr("(self._sample_idx(batch_size, rng)[:, np.newaxis] + np.arange(horizon)[np.newaxis]) % self.current_len"), Scope(None, mi, s4.env, "w"), None).canon()
     ok = iv == want
     ck.ob("R5-window-indices", CQ + ".sample_batch", "consecutive-mod-len", ok, f"indices = {iv}", "" if ok else f"must be {want}: consecutive slots from the sampled start, wrapped at current_len (buffer_size would read never-written slots of a partly filled buffer)", loc(mi, f4))
     # no-intermediate view: which index gathers each field (key-specialised partial evaluation of the branch)
-    per_key = _field_indices(c4, ifn[0].ast.orelse, f4)
+    per_key = _field_indices(c4, getattr(ifn[0], 'ast_swapped', ifn[0].ast).orelse, f4)
     ck.need(per_key, f"{CQ}.sample_batch: per-field index selection of the no-intermediate view not found (unrecognised idiom)")
     w_first = nf.poly(parse_expr("indices[:, 0]"), s4, ifn[0].id).canon()
     w_last = nf.poly(parse_expr("indices[:, -1]"), s4, ifn[0].id).canon()
@@ -415,6 +491,12 @@ MUTANTS = [
     {"id": "c04-action-last", "file": _F, "rule": "R6", "find": "                if k in [\"observation\", \"action\"]:", "replace": "                if k in [\"observation\"]:"},
 ]
 BENIGN = [
+    {"id": "c04-b-sampler-inplace-mask", "file": _F, "nth": 0, "find": "            priority = priority * mask[:current_len]", "replace": "            priority = priority.copy()\n            priority *= mask[:current_len]"},
+    {"id": "c04-b-done-alias", "file": _F, "find": "        if sample[\"terminated\"] or sample[\"truncated\"]:\n            for k in self.buffer:", "replace": "        episode_over = sample[\"terminated\"] or sample[\"truncated\"]\n        if episode_over:\n            for k in self.buffer:"},
+    {"id": "c04-b-counter-explicit", "file": _F, "find": "        self.episode_timesteps += 1\n", "replace": "        self.episode_timesteps = self.episode_timesteps + 1\n"},
+    {"id": "c04-b-tail-value-int-not", "file": _F, "find": "            self.mask_[past_idx] = (\n                0 if sample[\"truncated\"] else 1\n            )", "replace": "            self.mask_[past_idx] = int(not sample[\"truncated\"])"},
+    {"id": "c04-b-per-keywords", "file": _F, "find": "        return self.priority.prioritized_sampling(\n            self.current_len, batch_size, rng, self.mask_\n        )", "replace": "        return self.priority.prioritized_sampling(\n            current_len=self.current_len, batch_size=batch_size, rng=rng, mask=self.mask_\n        )"},
+    {"id": "c04-b-enable-guard-flipped", "file": _F, "find": "        if self.episode_timesteps > self.horizon:\n", "replace": "        if self.horizon < self.episode_timesteps:\n"},
     {"id": "c04-b-table-comprehension", "file": "rl_blox/blox/replay_buffer.py", "find": "            batch = {}\n            for k in self.buffer:\n                if k in [\"observation\", \"action\"]:\n                    indices_without_intermediate = indices[:, 0]\n                elif k == \"next_observation\":\n                    indices_without_intermediate = indices[:, -1]\n                else:\n                    indices_without_intermediate = indices\n                batch[k] = jnp.asarray(\n                    self.buffer[k][indices_without_intermediate]\n                )\n            batch = self.Batch(**batch)\n", "replace": "            select = {\n                \"observation\": indices[:, 0],\n                \"action\": indices[:, 0],\n                \"next_observation\": indices[:, -1],\n            }\n            batch = self.Batch(\n                **{\n                    k: jnp.asarray(self.buffer[k][select.get(k, indices)])\n                    for k in self.buffer\n                }\n            )\n"},
     {"id": "c04-b-enable-commuted", "file": _F, "find": "            self.mask_[(self.insert_idx - self.horizon) % self.buffer_size] = 1", "replace": "            self.mask_[(-self.horizon + self.insert_idx) % self.buffer_size] = 1"},
     {"id": "c04-b-guard-flipped", "file": _F, "find": "        if self.episode_timesteps > self.horizon:", "replace": "        if self.episode_timesteps > self.horizon and True:"},
